@@ -472,7 +472,46 @@ func c08_2(c *core.Ctx, p *core.Prog) {
 					msgs = append(msgs, fmt.Sprintf("the guard at %s does not return an error when the limit is reached", p.Pos(g.iff.Cond.Pos())))
 				}
 			}
-			// pre-increment guards (== max) must dominate the increment
+			// a wide counter is checked before it is handed on as an id: from the increment, no path reaches an
+			// Append of a column / sub-builder of the receiver that takes the variable without passing a guard
+			// (the delta-encoded id columns panic on a value that went down after truncation; handing the value
+			// to an accumulator first is harmless, the batch is refused before anything is built from it)
+			if cs.wide {
+				isGuard := func(i ssa.Instruction) bool {
+					for _, g := range guards {
+						if i == ssa.Instruction(g.iff) {
+							return true
+						}
+					}
+					return false
+				}
+				core.EachInstr(fn, func(i ssa.Instruction) {
+					ci, ok := i.(ssa.CallInstruction)
+					if !ok || isAccumulate(ci) {
+						return
+					}
+					f := core.CalleeObj(ci)
+					if f == nil || !strings.HasPrefix(f.Name(), "Append") {
+						return
+					}
+					recv := core.CallRecv(ci)
+					if recv == nil || core.LoadedField(recv) == nil {
+						return
+					}
+					uses := false
+					for _, arg := range core.CallArgs(ci) {
+						if cs.sameVar(core.StripConv(arg)) {
+							uses = true
+						}
+					}
+					if !uses {
+						return
+					}
+					if unchecked, _ := (core.PathQuery{Fn: fn, From: cs.add, To: i, Avoid: isGuard}).Exists(); unchecked {
+						msgs = append(msgs, fmt.Sprintf("the id is handed to %s at %s before it was compared with 65535: past the limit the truncated id goes down and the delta-encoded id column panics before the guard is reached", f.Name(), p.Pos(i.Pos())))
+					}
+				})
+			}
 			c.Check(len(msgs) == 0, key, pos, core.FuncName(fn), fmt.Sprintf("counter %s is compared with 65535 and the batch refused with an error", cs.label),
 				fmt.Sprintf("counter %s (16-bit id): %s — a batch with more parents than the id width allows crashes the producer instead of being refused with an error", cs.label, strings.Join(msgs, "; ")))
 		}
